@@ -109,6 +109,18 @@ w("deep/attr-elems.jsx", "const d = <A a=" + "<B b=" * 12 + "<c/>" + "/>" * 12 +
 w("deep/arrow-slots.jsx", "const d = " + "() => <A>{f(" * 10 + "1" + ")}</A>" * 10 + ";")
 w("deep/wide.jsx", "const d = <div>" + "".join(f"<A k{i}={{v{i}}}>{{f{i}()}}</A>" for i in range(40)) + "</div>;")
 
+# v-model duplicates its value expression (once as the value, once as the assignment target of the update
+# listener), so v-model nested in a v-model value doubles the output per level: a known finding (DESIGN.md 3.9),
+# kept under the module's own options only because every execution of it runs into the memory limit
+def vmodel(d):
+    e = "x"
+    for _ in range(d):
+        e = f"<input v-model={{{e}}} />"
+    return f"const a = {e};"
+w("deep/vmodel-nested-8.jsx", vmodel(8))
+w("deep/vmodel-nested-40.jsx", vmodel(40), "{}")
+open(os.path.join(root, "deep/vmodel-nested-40.only-own"), "w").write("")
+
 # ---- C. type resolution: cycles through each of the four resolvers, and legal recursion
 hdr = 'import { defineComponent, SetupContext } from "vue";\n'
 cyc = {
@@ -173,6 +185,15 @@ legal = {
 legal["chain-2000"] = "".join(f"type A{i} = A{i+1}; " for i in range(2000)) + "type A2000 = { x: string };\ndefineComponent((p: A0) => {});\ndefineComponent((p: { a: A1500 }) => {});"
 legal["extends-chain-1500"] = "".join(f"interface I{i} extends I{i+1} {{ p{i}: number }} " for i in range(1500)) + "interface I1500 { last: string }\ndefineComponent((p: I0) => {});"
 legal["paren-150"] = "type P = " + "(" * 150 + "{ a: string }" + ")" * 150 + ";\ndefineComponent((p: P) => {});\ndefineComponent((p: { q: P }) => {});"
+# legal, acyclic, but a DAG: every level refers to the next one twice, so naive expansion doubles per level
+def dag(n, op, leaf):
+    return "".join(f"type T{i} = T{i+1} {op} T{i+1};\n" for i in range(n)) + f"type T{n} = {leaf};\n"
+legal["dag-inter-24"] = dag(24, "&", "{ a: string }") + "defineComponent((p: T0) => {});"
+legal["dag-union-24"] = dag(24, "|", "string") + "defineComponent((p: { a: T0 }) => {});"
+legal["dag-keys-24"] = dag(24, "|", "'a'") + "type O = { a: string; b: number };\ndefineComponent((p: Pick<O, T0>) => {});"
+legal["dag-emits-24"] = dag(24, "&", "{ (e: 'x'): void }") + "defineComponent((p: {}, c: SetupContext<T0>) => {});"
+legal["dag-indexed-24"] = dag(24, "&", "{ k: string }") + "defineComponent((p: { v: T0['k'] }) => {});"
+legal["dag-small-6"] = dag(6, "&", "{ a: string; b?: number }") + "defineComponent((p: T0) => {});"
 for n, body in legal.items():
     w(f"types/{n}.tsx", hdr + body, '{"resolveType":true,"optimize":true}')
 w("types/aliased-import.tsx", 'import { defineComponent as dc, defineComponent } from "vue";\nimport * as V from "vue";\ndc((p: { a: 1 }) => {});\nV.defineComponent((p: { a: 1 }) => {});\ndefineComponent((p: { a: 1 }) => {});', '{"resolveType":true}')
